@@ -135,6 +135,14 @@ def gen_c01(rng):
                         methods[name] = spec
                     calls.append([[suffix], [gen_value(rng) for _ in range(rng.choice([0, 1, 2]))]])
                 ops.append(["hcall", [prefix], calls])
+            elif k < 0.2:
+                # a C-implemented callable registered as it is (no Python frame, often no introspectable signature)
+                b, params, ret = rng.choice([("max", [3, 1, 2], 3), ("len", [[1, 2, 3]], 3), ("str", [5], "5"), ("sorted", [[3, 1, 2]], [1, 2, 3]),
+                                             ("divmod", [7, 2], [3, 1]), ("format", ["a", "b"], "a-b"), ("int", ["12"], 12),
+                                             ("abs", [-4], 4), ("sum", [[1, 2, 3]], 6), ("repr", ["x"], "'x'")])
+                name = "%s_c%do%d" % (b, ci, oi)
+                methods[name] = {"kind": "builtin", "builtin": b, "ret": ret}
+                ops.append(["call", [name], params])
             elif k < 0.7:
                 name, params = one("c%do%d" % (ci, oi))
                 ops.append(["call", name.split(".") if "." in name else [name], params])
@@ -216,6 +224,8 @@ def analyse_c01(program, s, run, verdict):
             for e, r in zip(op[1], res):
                 check_one(o["ci"], o["oi"], e[1], e[2], r, "batch entry")
     for name, params in sorted(expected_calls.items()):
+        if specs.get(name, {}).get("kind") == "builtin":
+            continue  # a built-in leaves no entry in the call log: judged by its value only
         got = log.get(name, [])
         if len(got) != 1:
             v.append(Violation("C01", "invoked-once", "count-%d" % min(len(got), 2), "callable %r invoked %d times" % (name, len(got))))
@@ -348,7 +358,7 @@ class C01Scenario(object):
 
 def notif_bodies(rng, tok):
     """Raw request texts with notification shapes the client API cannot produce."""
-    m = rng.choice(["echo", "fail", "nope", "two", "echo", "quit"])
+    m = rng.choice(["echo", "fail", "nope", "two", "echo", "quit", "push"])
     shapes = [
         '{"method": "%s", "params": ["%s"], "id": null}' % (m, tok),
         '{"jsonrpc": "2.0", "method": "%s", "params": ["%s"], "id": ""}' % (m, tok),
@@ -394,8 +404,8 @@ def gen_c04(rng):
     elif cd < 0.45:
         sv["custom_dispatch"] = "instance"
     methods = {"echo": {"kind": "echo"}, "fail": {"kind": "fail"}, "two": {"kind": "two"},
-               "slow": {"kind": "slow", "d": rng.choice([0.5, 1.0])}, "quit": {"kind": "exit"}}
-    names = ["echo", "echo", "fail", "nope", "two", "slow", "quit"]
+               "slow": {"kind": "slow", "d": rng.choice([0.5, 1.0])}, "quit": {"kind": "exit"}, "push": {"kind": "sink"}}
+    names = ["echo", "echo", "fail", "nope", "two", "slow", "quit", "push"]
     clients = []
     for ci in range(rng.randint(1, 3)):
         ops = []
@@ -505,10 +515,22 @@ def analyse_c04(program, s, run, verdict):
             v.append(Violation("C04", "client-returns-none", str(o["out"][0]) + ":" + str(o["out"][1])[:30],
                                "client notification call produced %s instead of None" % (o["out"],)))
     # executed exactly once (after the pools were drained)
+    sink = None
+    for ev in s.log:
+        if ev[2] == "sink":
+            sink = ev[3]
     for tok, e in sorted(notif_tokens.items()):
         m = e.get("method")
         params = e.get("params", [])
         n = len(h.calls.get(tok, []))
+        if m == "push" and "push" in methods:
+            # deque.append(x): observed by its effect
+            if isinstance(params, list) and len(params) == 1:
+                n = (sink or []).count(tok)
+                if n != 1:
+                    v.append(Violation("C04", "executed-once", "builtin-count-%d" % min(n, 2),
+                                       "notification %s to a bound built-in method took effect %d times" % (tok, n)))
+            continue
         runs = m in methods and not (methods[m]["kind"] == "two" and (isinstance(params, dict) or len(params) != 2))
         if runs and n != 1:
             v.append(Violation("C04", "executed-once", "count-%d" % min(n, 2), "notification %s (%s) executed %d times" % (tok, m, n)))
@@ -757,13 +779,8 @@ def config_copy_fragment(run):
     orig = cfgmod.Config(version=rng.choice([1.0, 2.0]), use_jsonclass=rng.choice([True, False]))
     orig.classes.add(K, "K0")
     orig.serialize_handlers[K] = lambda o: "h0"
-    cp = orig.copy()
     a0 = sysim.snapshot_config(orig)
-    b0 = sysim.snapshot_config(cp)
-    if a0 != b0:
-        s.emit("config.copy", False, "copy-differs", "the copy differs from the original: %s vs %s" % (a0, b0))
-        return
-    s.emit("config.copy", True, "equal", "")
+    cp = orig.copy()
 
     def mutate(c, tag):
         for _ in range(rng.randint(1, 4)):
@@ -786,13 +803,29 @@ def config_copy_fragment(run):
                 c.serialize_method = "_ser_" + tag
                 c.ignore_attribute = "_ign_" + tag
 
-    mutate(cp, "copy")
-    ok = sysim.snapshot_config(orig) == a0
-    s.emit("config.copy", ok, "copy-mutation-leaks", "changing the copy changed the original")
-    b1 = sysim.snapshot_config(cp)
-    mutate(orig, "orig")
-    ok = sysim.snapshot_config(cp) == b1
-    s.emit("config.copy", ok, "original-mutation-leaks", "changing the original changed the copy")
+    # nothing of the copy is looked at before the first mutation: a copy that duplicates lazily must still be independent
+    if rng.random() < 0.5:
+        mutate(orig, "orig")
+        a1 = sysim.snapshot_config(orig)
+        b0 = sysim.snapshot_config(cp)
+        ok = b0 == a0
+        s.emit("config.copy", ok, "original-mutation-leaks" if not ok else "equal",
+               "" if ok else "after changing the original, the copy is %s instead of the state at copy time %s" % (
+                   sysim.describe_snapshot(b0), sysim.describe_snapshot(a0)))
+        mutate(cp, "copy")
+        ok = sysim.snapshot_config(orig) == a1
+        s.emit("config.copy", ok, "copy-mutation-leaks", "changing the copy changed the original")
+    else:
+        mutate(cp, "copy")
+        b1 = sysim.snapshot_config(cp)
+        a1 = sysim.snapshot_config(orig)
+        ok = a1 == a0
+        s.emit("config.copy", ok, "copy-mutation-leaks" if not ok else "equal",
+               "" if ok else "after changing the copy, the original is %s instead of %s" % (
+                   sysim.describe_snapshot(a1), sysim.describe_snapshot(a0)))
+        mutate(orig, "orig")
+        ok = sysim.snapshot_config(cp) == b1
+        s.emit("config.copy", ok, "original-mutation-leaks", "changing the original changed the copy")
 
 
 class C13Scenario(C04Scenario):
